@@ -15,6 +15,10 @@ def keysOf (s : State) : List Int :=
   [(s.dn.total * 1000).floor, (s.ic.total * 100).floor, (s.oc.total * 100).floor,
    (s.pn.total * 1000).floor, (s.sed.total * 1000).floor, (s.tn.total * 1000).floor]
 
+/-- the six totals themselves, in the same (sorted-name) order -/
+def valuesOf (s : State) : List Rat :=
+  [s.dn.total, s.ic.total, s.oc.total, s.pn.total, s.sed.total, s.tn.total]
+
 /-- the state an outcome of the limit-seeking loops carries -/
 def outcomeState : LoopOutcome → State
   | .found s => s
@@ -23,6 +27,7 @@ def outcomeState : LoopOutcome → State
 
 def modelOps (D : Data) : ModelOps State where
   compress := fun s => ⟨keysOf s, s.flags⟩
+  values := valuesOf
   syncTo := fun s bits => setAll D s bits
   randomize := fun s draws => outcomeState (randomize D s draws)
 
